@@ -10,6 +10,7 @@ package store
 import (
 	"bytes"
 	"compress/gzip"
+	"encoding/hex"
 	"encoding/json"
 	"fmt"
 	"io"
@@ -35,6 +36,7 @@ type c28Chunk struct {
 	Abort   bool   `json:"abort,omitempty"`
 	Kind    string `json:"kind"` // "nil" (no data), "gz" (gzip of Payload), "garbage" (bytes gzip rejects)
 	Payload []byte `json:"payload,omitempty"`
+	expr    string // Gallina expression for Payload, when it is a piece of a let-bound stream
 }
 
 type c28Input struct {
@@ -43,6 +45,7 @@ type c28Input struct {
 	Data   []byte     `json:"data,omitempty"`
 	Caps   []int      `json:"caps,omitempty"`
 	EOFWD  bool       `json:"eof_with_data,omitempty"`
+	Blocks []c28Block `json:"blocks,omitempty"` // kind round: the stream as blocks instead of Data
 	Wire   bool       `json:"wire,omitempty"` // pass each chunk through Marshal/UnmarshalLoadChunkRequest before dechunking
 	Chunks []c28Chunk `json:"chunks,omitempty"`
 	BigLen int        `json:"big_len,omitempty"` // kind big: data is generated from the seed, not stored
@@ -131,20 +134,111 @@ func c28Describe(ch *proto.LoadChunkRequest, canon func(string) string) c28Chunk
 }
 
 // byte string as a Gallina term of type bytes: (bs "...") for printable ASCII, else an explicit list
-func c28B(b []byte) string {
+func c28Lit(b []byte) string {
 	for _, x := range b {
 		if x < 32 || x > 126 || x == '"' {
-			return coqBytes(b)
+			return "(hx \"" + hex.EncodeToString(b) + "\")"
 		}
 	}
 	return "(bs " + coqStr(string(b)) + ")"
+}
+
+// byte string as a Gallina term of type bytes; long inputs are run-length encoded ((rep x n) for runs of one byte)
+// and literals are split (Coq's parser needs stack proportional to the length of a string literal)
+func c28B(b []byte) string {
+	if len(b) <= 200 {
+		return c28Lit(b)
+	}
+	var parts []string
+	litStart := 0
+	flush := func(end int) {
+		for s := litStart; s < end; s += 1000 {
+			e := s + 1000
+			if e > end {
+				e = end
+			}
+			parts = append(parts, c28Lit(b[s:e]))
+		}
+	}
+	for i := 0; i < len(b); {
+		j := i
+		for j < len(b) && b[j] == b[i] {
+			j++
+		}
+		if j-i >= 48 {
+			flush(i)
+			parts = append(parts, fmt.Sprintf("rep %d%%N %d%%N", b[i], j-i))
+			litStart = j
+		}
+		i = j
+	}
+	flush(len(b))
+	return "(" + strings.Join(parts, " ++ ") + ")"
+}
+
+// ---- structured streams at SQLite-like scales
+
+type c28Block struct {
+	Kind string `json:"kind"` // zero | const | rand | file (store/testdata/load.sqlite)
+	Byte byte   `json:"byte,omitempty"`
+	Len  int    `json:"len,omitempty"`
+	Seed uint32 `json:"seed,omitempty"`
+}
+
+func c28LCG(seed uint32, n int) []byte {
+	x := uint64(seed)
+	out := make([]byte, n)
+	for i := range out {
+		x = (x*1103515245 + 12345) % 2147483648
+		out[i] = byte(x / 65536 % 256)
+	}
+	return out
+}
+
+var c28SQLiteFile []byte
+
+// the stream described by blocks, and the Gallina expression that denotes it
+func c28BuildBlocks(bl []c28Block) ([]byte, string) {
+	var data []byte
+	var parts []string
+	for _, b := range bl {
+		switch b.Kind {
+		case "zero":
+			data = append(data, make([]byte, b.Len)...)
+			parts = append(parts, fmt.Sprintf("rep 0%%N %d%%N", b.Len))
+		case "const":
+			data = append(data, bytes.Repeat([]byte{b.Byte}, b.Len)...)
+			parts = append(parts, fmt.Sprintf("rep %d%%N %d%%N", b.Byte, b.Len))
+		case "rand":
+			data = append(data, c28LCG(b.Seed, b.Len)...)
+			parts = append(parts, fmt.Sprintf("lcg %d%%N %d%%N", b.Seed, b.Len))
+		case "file":
+			if c28SQLiteFile == nil {
+				f, err := os.ReadFile("testdata/load.sqlite")
+				if err != nil {
+					panic(err)
+				}
+				c28SQLiteFile = f
+			}
+			data = append(data, c28SQLiteFile...)
+			parts = append(parts, c28B(c28SQLiteFile))
+		}
+	}
+	if len(parts) == 0 {
+		return data, "[]"
+	}
+	return data, "(" + strings.Join(parts, " ++ ") + ")"
 }
 
 func c28CoqChunk(c c28Chunk) string {
 	data := "None"
 	switch c.Kind {
 	case "gz":
-		data = "(Some (1%N :: " + c28B(c.Payload) + "))"
+		if c.expr != "" {
+			data = "(Some (1%N :: " + c.expr + "))"
+		} else {
+			data = "(Some (1%N :: " + c28B(c.Payload) + "))"
+		}
 	case "garbage":
 		data = "(Some [0%N])"
 	}
@@ -344,6 +438,10 @@ func c28Dir() string {
 
 func c28RunRound(w *vWriter, in c28Input) {
 	data := in.Data
+	dataExpr := ""
+	if len(in.Blocks) > 0 {
+		data, dataExpr = c28BuildBlocks(in.Blocks)
+	}
 	if in.Kind == "big" {
 		rng := rand.New(rand.NewSource(in.BigSeed))
 		data = make([]byte, in.BigLen)
@@ -410,6 +508,15 @@ func c28RunRound(w *vWriter, in c28Input) {
 	if len(in.Caps) > 0 {
 		tags = append(tags, "short-reads")
 	}
+	if len(in.Blocks) > 0 {
+		tags = append(tags, "structured-blocks")
+		if n := len(data); n >= 4096 && bytes.Equal(data[n-4096:], make([]byte, 4096)) {
+			tags = append(tags, "ends-with-zero-page")
+		}
+		if len(data) >= 65536 {
+			tags = append(tags, "len>=64KiB")
+		}
+	}
 	c := VCase{Input: in, Key: vJSON(in), Nontrivial: mult, Tags: tags}
 	if in.Kind != "big" {
 		res := make([]string, len(vs))
@@ -423,8 +530,33 @@ func c28RunRound(w *vWriter, in c28Input) {
 			}
 			caps[i] = coqN(uint64(x))
 		}
-		c.Coq = fmt.Sprintf("CRound %s {| rd_data := %s; rd_caps := %s; rd_eofwd := %s |} %s %s %s %s",
-			coqN(uint64(in.Size)), c28B(data), coqList(caps), coqBool(in.EOFWD), c28CoqChunks(cs), coqList(res), c28B(file),
+		if dataExpr == "" {
+			dataExpr = c28B(data)
+		}
+		// observations that are pieces of the stream are written as such (slice off len d), so that big streams stay small
+		if len(data) > 200 {
+			off := 0
+			for i := range cs {
+				n := len(cs[i].Payload)
+				if cs[i].Kind == "gz" && off+n <= len(data) && bytes.Equal(cs[i].Payload, data[off:off+n]) {
+					cs[i].expr = fmt.Sprintf("slice %d%%N %d%%N d", off, n)
+				}
+				off += n
+			}
+		}
+		fileExpr := ""
+		switch {
+		case len(file) <= 200:
+			fileExpr = c28B(file)
+		case bytes.Equal(file, data):
+			fileExpr = "d"
+		case len(file) < len(data) && bytes.Equal(file, data[:len(file)]):
+			fileExpr = fmt.Sprintf("(slice 0%%N %d%%N d)", len(file))
+		default:
+			fileExpr = c28B(file)
+		}
+		c.Coq = fmt.Sprintf("(let d := %s in CRound %s {| rd_data := d; rd_caps := %s; rd_eofwd := %s |} %s %s %s %s)",
+			dataExpr, coqN(uint64(in.Size)), coqList(caps), coqBool(in.EOFWD), c28CoqChunks(cs), coqList(res), fileExpr,
 			c28CoqChunk(c28Describe(ab, canon)))
 	}
 	if !ab.Abort || ab.StreamId == "" || ab.Data != nil || (len(real) > 0 && real[0].StreamId != ab.StreamId) {
@@ -818,6 +950,92 @@ func TestVerif_C28(t *testing.T) {
 			}
 		}
 		c28Run(w, in)
+	}
+
+	// structured streams at SQLite-like scales: 512/1024/4096-byte blocks that are zero-filled, constant-filled or
+	// pseudo-random, zero runs at the start / in the middle / at the END, exact multiples of 4096 and of the chunk size and
+	// one off, all-zero streams, and a real SQLite file padded with zero pages
+	{
+		sizes := []int64{1000, 1024, 4096, 4097, 8192, 16384, 65536, 100000}
+		blocksOf := func(maxLen int) []c28Block {
+			var bl []c28Block
+			total := 0
+			unit := []int{512, 1024, 4096}[rng.Intn(3)]
+			for total < maxLen {
+				n := unit * (1 + rng.Intn(4))
+				switch rng.Intn(4) {
+				case 0, 1:
+					bl = append(bl, c28Block{Kind: "zero", Len: n})
+				case 2:
+					bl = append(bl, c28Block{Kind: "const", Byte: byte(1 + rng.Intn(255)), Len: n})
+				default:
+					if n > 2048 {
+						n = 2048
+					}
+					bl = append(bl, c28Block{Kind: "rand", Seed: rng.Uint32() % 2147483648, Len: n})
+				}
+				total += n
+			}
+			return bl
+		}
+		emit := func(bl []c28Block, size int64) {
+			c28Run(w, c28Input{Kind: "round", Size: size, Blocks: bl, EOFWD: rng.Intn(2) == 0, Wire: rng.Intn(3) == 0})
+		}
+		z := func(n int) c28Block { return c28Block{Kind: "zero", Len: n} }
+		k := func(n int) c28Block { return c28Block{Kind: "const", Byte: 0x53, Len: n} }
+		// hand-picked
+		emit([]c28Block{z(4096)}, 4096)                                     // one zero page
+		emit([]c28Block{z(8192)}, 1000)                                     // all zero
+		emit([]c28Block{z(77824)}, 4096)                                    // all zero, 19 pages
+		emit([]c28Block{k(12288), z(65536)}, 4096)                          // zero tail
+		emit([]c28Block{k(12288), z(65536)}, 100000)                        // zero tail, one chunk
+		emit([]c28Block{k(100), z(4096)}, 1024)                             // unaligned zero tail
+		emit([]c28Block{z(4096), k(1)}, 4096)                               // zero page then a byte
+		emit([]c28Block{z(4095)}, 4096)                                     // just under a page
+		emit([]c28Block{z(4097)}, 4096)                                     // just over
+		emit([]c28Block{z(16384), k(4096), z(16384), k(10)}, 8192)          // holes at start and middle
+		emit([]c28Block{{Kind: "file"}}, 4096)                              // a real SQLite database
+		emit([]c28Block{{Kind: "file"}, z(3 * 4096)}, 4096)                 // ... followed by free (zero) pages
+		emit([]c28Block{{Kind: "file"}, z(5 * 4096)}, 1024)
+		emit([]c28Block{{Kind: "file"}, z(4096), {Kind: "file"}, z(8192)}, 16384)
+		emit([]c28Block{{Kind: "rand", Seed: 7, Len: 2000}, z(200 * 1024)}, 65536) // ~200 KiB
+		// generated
+		ng := vN(40, 600)
+		for i := 0; i < ng; i++ {
+			maxLen := 4096 * (1 + rng.Intn(10))
+			if i%8 == 0 {
+				maxLen = 4096 * (16 + rng.Intn(34)) // up to ~200 KiB
+			}
+			bl := blocksOf(maxLen)
+			switch rng.Intn(5) {
+			case 0, 1: // zero pages at the end
+				bl = append(bl, z(4096*(1+rng.Intn(4))))
+			case 2: // ... and one byte more / a page less one
+				bl = append(bl, z(4096*(1+rng.Intn(3))+1-2*rng.Intn(2)))
+			case 3:
+				bl = append([]c28Block{z(4096 * (1 + rng.Intn(3)))}, bl...)
+			}
+			total := 0
+			for _, b := range bl {
+				total += b.Len
+			}
+			var size int64
+			for {
+				size = sizes[rng.Intn(len(sizes))]
+				if rng.Intn(4) == 0 {
+					size += int64(rng.Intn(3) - 1)
+				}
+				if int64(total)/size*int64(total) <= 40000000 { // keeps the model's work (chunks x length) bounded
+					break
+				}
+			}
+			if rng.Intn(6) == 0 && total > 0 { // stream length an exact multiple of the chunk size
+				if pad := int(size) - total%int(size); pad != int(size) {
+					bl = append(bl, z(pad))
+				}
+			}
+			emit(bl, size)
+		}
 	}
 
 	// chunk sizes beyond the 1 MiB internal buffer (several reads per chunk): oracle only, the bytes are not sent to the model
